@@ -323,6 +323,11 @@ def cov_matrix(ctx: Ctx) -> List[Violation]:
     for e in ctx.events:
         if e[0] != "I":
             ctx.cov[f"env:{e[0]}"] += 1
+    # a vehicle object that comes out of a step untouched: either its activity's update is a no-op by design, or the update
+    # raised an error and was discarded (logged by the library, state kept) -- the symptom every "stuck vehicle" defect showed
+    for vid, post_v in ctx.post.vehicles.items():
+        if ctx.pre.vehicles.get(vid) is post_v:
+            ctx.cov[f"untouched:{sname(post_v)}"] += 1
     return []
 
 
@@ -575,9 +580,11 @@ def c04_transition(ctx: Ctx) -> List[Violation]:
                 out.append(Violation("C04", "moved_on_empty", (cls, pb), f"vehicle {vid} moved on and ended the step with level {l1} instead of stopping out of service"))
         elif pa == pb and pa in ("Idle", "ChargeQueueing") and vid not in ctx.instructed():
             if b is a:
-                # the vehicle's whole update was discarded (an error was returned and logged, e.g. a queued
-                # vehicle whose plug type it cannot use): no idle operation took place; counted, not judged
+                # the vehicle's whole update was discarded (an error was returned and logged; this used to happen to a queued
+                # vehicle whose plug type it cannot use, see D16): time passed and the vehicle expended nothing
                 ctx.cov[f"c04:update_discarded:{pa}"] += 1
+                if _idle_rate(m) > 0 and l0 > 0:
+                    out.append(Violation("C04", "not_lowered", (cls, pa, "update_discarded"), f"vehicle {vid} spent {dt} s in {pa} but its whole update was discarded (an error inside the update): level stayed {l1}"))
             elif _idle_rate(m) > 0 and l0 > 0:
                 ctx.cov[f"c04:idled:{cls}:{pa}"] += 1
                 if not l1 < l0:
